@@ -15,7 +15,7 @@ class C13(SCheck):
             "dangling and cyclic; as tree members or as the top-level source; -L; oracle: exit 0 implies no symlink in the mapped destination and "
             "the tree equals the model built by resolving every path; dangling/cyclic implies exit != 0; non-trivial = at least one link was "
             "selected; distinct by (case, signature).  Quantified over inputs: schedules contribute replayability and walk order only")
-    assumptions = ["link targets stay inside the sandbox", "chains <= 38 (Linux follows at most 40)"]
+    assumptions = ["link targets stay inside the sandbox", "chains <= 38 (Linux follows at most 40); chains longer than 17 are not part of the determinism audit (ELOOP near the budget is timing dependent in the kernel)"]
 
     def gen_case(self, r, idx, tier):
         driver, workers, bs = gen.pick_config(r)
@@ -23,6 +23,7 @@ class C13(SCheck):
                gen.d_op("out/tdir/deep"), gen.f_op("out/tdir/deep/z", 5, pat=6),
                gen.f_op("src/plain", gen.boundary_size(r, bs, cap=5000), pat=9), gen.d_op("src/d"), gen.f_op("src/d/x", 10, pat=2)]
         n = r.randrange(1, 5)
+        fragile = False
         bad = None
         for i in range(n):
             p = "src/" + ("d/" if r.random() < 0.3 else "") + "l%d" % i
@@ -44,7 +45,12 @@ class C13(SCheck):
                 else:
                     ops.append(gen.l_op(p, "d"))
             elif kind == "chain":
-                ln = r.choice([2, 3, 10, 38])
+                # resolutions within 2 links of the kernel's budget of 40 are answered ELOOP or not depending on timing (observed under
+                # load: the budget is not reset when a lock-free path walk is retried), so such a case is legal but not replayable:
+                # it is generated (exit 0 must still mean a correct tree) and kept out of the determinism audit
+                ln = r.choice([2, 3, 10, 17, 17, 38])
+                if ln > 17:
+                    fragile = True
                 for j in range(ln - 1):
                     ops.append(gen.l_op("out/c%d_%d" % (i, j), "c%d_%d" % (i, j + 1)))
                 ops.append(gen.l_op("out/c%d_%d" % (i, ln - 1), r.choice(["tfile", "tdir"])))
@@ -77,7 +83,7 @@ class C13(SCheck):
         if r.random() < 0.5:
             ops.append(gen.d_op("dst"))
         inv = gen.mk_inv(srcs, dest, driver=driver, workers=workers, block_size=bs, **flags)
-        return {"setup": ops, "steps": [{"inv": inv}], "max_events": 200000}
+        return {"setup": ops, "steps": [{"inv": inv}], "max_events": 200000, "no_audit": fragile}
 
     def evaluate(self, res, verdict, case, step_i, t0, plan):
         f = super().evaluate(res, verdict, case, step_i, t0, plan)
